@@ -353,10 +353,16 @@ func krRot(r *rng, id string, n int) {
 
 // krConc: two keyring calls started at the same instant on two goroutines, many rounds per case; each
 // round's results and final ring must be explained by one of the two sequential orders.
-func krConc(r *rng, id string) {
+func krConc(r *rng, id string) { krConcP("C17", r, id) }
+
+func krConcP(prop string, r *rng, id string) {
 	pool := &krPool{}
 	for i := 0; i < 4; i++ {
 		pool.keys = append(pool.keys, r.bytes([]int{16, 24, 32, 16}[i]))
+	}
+	if r.chance(1, 4) {
+		krConcBig(prop, r, id)
+		return
 	}
 	poolHex := make([]string, len(pool.keys))
 	for i, k := range pool.keys {
@@ -406,7 +412,7 @@ func krConc(r *rng, id string) {
 		<-done
 		<-done
 		final := pool.ring(kr.GetKeys())
-		line := fmt.Sprintf("C17 conc id=%s pool=%s ring0=%s a=%s:%d:%s b=%s:%d:%s final=%s", id, strings.Join(poolHex, ","), ring0, ka, ia, ra, kb, ib, rb, final)
+		line := fmt.Sprintf(prop+" conc id=%s pool=%s ring0=%s a=%s:%d:%s b=%s:%d:%s final=%s", id, strings.Join(poolHex, ","), ring0, ka, ia, ra, kb, ib, rb, final)
 		// only the first round and any round whose outcome differs from it are emitted (the driver judges each)
 		if round == 0 {
 			emit("%s", line)
@@ -419,6 +425,77 @@ func krConc(r *rng, id string) {
 
 // krConcLegal replays the two calls sequentially on fresh real keyrings in both orders (the real code is
 // its own sequential reference here; the Lean model judges every emitted line independently).
+// krConcBig: a new key is installed while an old one is retired, on a ring of several hundred keys (whatever
+// a call does between looking at the ring and changing it then takes long enough for the other call to land
+// in between). Both calls must succeed, the new key must be installed and the old one gone; the first round
+// and any round where that fails are handed to the driver with the full rings.
+func krConcBig(prop string, r *rng, id string) {
+	pool := &krPool{}
+	size := 600
+	for i := 0; i < size+1; i++ {
+		pool.keys = append(pool.keys, r.bytes(16))
+	}
+	poolHex := make([]string, len(pool.keys))
+	idx := map[string]int{}
+	for i, k := range pool.keys {
+		poolHex[i] = hx(k)
+		idx[string(k)] = i
+	}
+	ringS := func(keys [][]byte) string {
+		parts := make([]string, len(keys))
+		for i, k := range keys {
+			parts[i] = fmt.Sprint(idx[string(k)])
+		}
+		return strings.Join(parts, ".")
+	}
+	kr, err := ml.NewKeyring(pool.keys[1:size], pool.keys[0])
+	if err != nil {
+		return
+	}
+	newI := size
+	for round := 0; round < 2500; round++ {
+		cur := kr.GetKeys()
+		oldK := cur[1+r.intn(len(cur)-1)]
+		oldI := idx[string(oldK)]
+		var ring0 string
+		if round == 0 {
+			ring0 = ringS(cur)
+		}
+		snapshot := append([][]byte(nil), cur...)
+		var ra, rb string
+		start := make(chan struct{})
+		done := make(chan struct{}, 2)
+		go func() { <-start; ra = errTok(kr.AddKey(pool.keys[newI])); done <- struct{}{} }()
+		go func() { <-start; rb = errTok(kr.RemoveKey(oldK)); done <- struct{}{} }()
+		close(start)
+		<-done
+		<-done
+		fin := kr.GetKeys()
+		hasNew, hasOld := false, false
+		for _, k := range fin {
+			hasNew = hasNew || bytes.Equal(k, pool.keys[newI])
+			hasOld = hasOld || bytes.Equal(k, oldK)
+		}
+		ok := ra == "ok" && rb == "ok" && hasNew && !hasOld && len(fin) == len(snapshot)
+		if round == 0 || !ok {
+			if ring0 == "" {
+				ring0 = ringS(snapshot)
+			}
+			rid := id
+			if round > 0 {
+				rid = fmt.Sprintf("%s.%d", id, round)
+			}
+			emit("%s conc id=%s pool=%s ring0=%s a=add:%d:%s b=remove:%d:%s final=%s", prop, rid, strings.Join(poolHex, ","), ring0, newI, ra, oldI, rb, ringS(fin))
+			if !ok {
+				return
+			}
+		}
+		// back to a ring without the new key and with the old one (at the end) for the next round
+		kr.RemoveKey(pool.keys[newI])
+		kr.AddKey(oldK)
+	}
+}
+
 func krConcLegal(pool *krPool, _ *ml.Keyring, ring0 string, ka string, ia int, ra string, kb string, ib int, rb string, final string) bool {
 	try := func(firstA bool) bool {
 		var idx []int
